@@ -163,6 +163,20 @@ def run_definition(ctx, P):
             if xv is not None:
                 c.indicators["X"] = xv
         kw2["input_value"] = "X"
+    if P.get("feed") == "live-T2":
+        # the definition over the T2 buckets of the stream (reference resampler), the library fed one raw candle at a time:
+        # every bucket is re-formed by merges before it closes
+        from types import SimpleNamespace
+        from harness.tfcommon import ref_resample
+        ind = build(name, kw2, candles=[], round_value=RV, timeframe="T2", **(P.get("extra") or {}))
+        for c in clone(cs):
+            ind.append(c)
+        got = ind.as_list()
+        ctx.observe("readings", got)
+        buckets = [SimpleNamespace(**{f: b[f] for f in FIELDS}) for b in ref_resample(ctx, cs, [ctx.sec_of(c.timestamp) for c in cs], 120)]
+        ref = expected(ctx, name, kw2, buckets, None)
+        compare_series(ctx, name, got, ref)
+        return ind, buckets, got, ref, None
     ind = build(name, kw2, candles=cs, round_value=RV, **(P.get("extra") or {}))
     ind.calculate()
     got = ind.as_list()
